@@ -61,29 +61,46 @@ def static_truth(test):
     return None
 
 
+def _implied_literals(t, pol, out):
+    """literals (test, polarity) that follow from `t == pol`: not-elimination, all conjuncts of a true `and`, all disjuncts of a false `or`"""
+    while isinstance(t, ast.UnaryOp) and isinstance(t.op, ast.Not):
+        t, pol = t.operand, not pol
+    if isinstance(t, ast.Call) and dotted(t.func) == "bool" and len(t.args) == 1 and not t.keywords:
+        return _implied_literals(t.args[0], pol, out)
+    if isinstance(t, ast.BoolOp):
+        if (isinstance(t.op, ast.And) and pol) or (isinstance(t.op, ast.Or) and not pol):
+            for v in t.values:
+                _implied_literals(v, pol, out)
+        return
+    out.append((t, pol))
+
+
 def infeasible(pf):
-    """a path is infeasible when a guard is decided the other way by constant propagation, or when two guards with the same
-    substituted test (same expression over the inputs and the heap as read at that point) were taken with opposite outcomes"""
+    """a path is infeasible when a guard is decided the other way by constant propagation, or when two guards imply the same
+    literal (same substituted expression over the inputs and the heap as read at that point) with opposite truth values"""
     seen = {}
     for g in pf.guards:
-        t, pol = g[0], g[1]
-        v = static_truth(t)
-        if v is not None and v != pol:
+        v = static_truth(g[0])
+        if v is not None and v != g[1]:
             return True
-        while isinstance(t, ast.UnaryOp) and isinstance(t.op, ast.Not):
-            t, pol = t.operand, not pol
-        if isinstance(t, ast.Compare) and len(t.ops) == 1 and isinstance(t.ops[0], (ast.IsNot, ast.NotEq, ast.NotIn)):
-            k = ("cmp", type(t.ops[0]).__name__[:2], _ekey(t.left), _ekey(t.comparators[0]))
-            pol = not pol
-        elif isinstance(t, ast.Compare) and len(t.ops) == 1 and isinstance(t.ops[0], (ast.Is, ast.Eq, ast.In)):
-            k = ("cmp", type(t.ops[0]).__name__[:2], _ekey(t.left), _ekey(t.comparators[0]))
-        else:
-            k = _ekey(t)
-        if _impure(t):
-            continue
-        if k in seen and seen[k] != pol:
-            return True
-        seen[k] = pol
+        lits = []
+        _implied_literals(g[0], g[1], lits)
+        for t, pol in lits:
+            v = static_truth(t)
+            if v is not None and v != pol:
+                return True
+            if isinstance(t, ast.Compare) and len(t.ops) == 1 and isinstance(t.ops[0], (ast.IsNot, ast.NotEq, ast.NotIn)):
+                k = ("cmp", type(t.ops[0]).__name__[:2], _ekey(t.left), _ekey(t.comparators[0]))
+                pol = not pol
+            elif isinstance(t, ast.Compare) and len(t.ops) == 1 and isinstance(t.ops[0], (ast.Is, ast.Eq, ast.In)):
+                k = ("cmp", type(t.ops[0]).__name__[:2], _ekey(t.left), _ekey(t.comparators[0]))
+            else:
+                k = _ekey(t)
+            if _impure(t):
+                continue
+            if k in seen and seen[k] != pol:
+                return True
+            seen[k] = pol
     return False
 
 
@@ -190,6 +207,8 @@ def guard_cases(guards, rename=self_rename, cap=16):
         """DNF of (test == pol) as list of conjunctions (lists of (kind, atom, value))"""
         if isinstance(test, ast.UnaryOp) and isinstance(test.op, ast.Not):
             return lits(test.operand, not pol)
+        if isinstance(test, ast.Call) and dotted(test.func) == "bool" and len(test.args) == 1:
+            return lits(test.args[0], pol)
         if isinstance(test, ast.BoolOp):
             is_or = isinstance(test.op, ast.Or)
             parts = [lits(v, pol) for v in test.values]
